@@ -262,6 +262,26 @@ def run(f, fixture, rep, cfg, tier):
             shape = r"(std::option::Option::<&?T>::(copied|cloned|map)\()?(core::slice::<impl \[T\]>::(first|get)|std::iter::Iterator::next)\((core::slice::<impl \[T\]>::iter\()?self<\w+>\.0\)?(, 0_usize)?\)(, (closure\{\}|" + CONV + r")\))?"
             okf = bool(alts) and all(re.fullmatch(shape, a_) or re.fullmatch(r"std::option::Option::Some\{self<\w+>\.0\[0[^\]]*\]\}", a_) for a_ in alts)
             conv_only = all(re.search(CONV + "$", c2.decl) for cb2 in f.closures_of(b) for c2 in cb2.calls())
+            # ... whatever the number of items (a slice pattern `[v]` instead of `[v, ..]` accepts one-element lists only)
+            exact = []
+            for bb_ in sorted(b.reachable()):
+                for st_ in b.stmts(bb_):
+                    if st_["k"] == "assign" and st_["rv"]["r"] == "bin" and st_["rv"]["op"] in ("Eq", "Ne"):
+                        def _ci(o_):
+                            v_ = const_int(o_)
+                            if v_ is None and op_place(o_) is not None:
+                                lv_ = b.origins(o_)
+                                if len(lv_) == 1 and lv_[0]["kind"] == "const" and "bits" in lv_[0]["k"]:
+                                    v_ = int(lv_[0]["k"]["bits"])
+                            return v_
+                        ca_, cb_ = _ci(st_["rv"]["a"]), _ci(st_["rv"]["b"])
+                        other_ = st_["rv"]["b"] if ca_ is not None else st_["rv"]["a"]
+                        k_ = ca_ if ca_ is not None else cb_
+                        if k_ is not None and k_ >= 1 and any(lf_["kind"] == "un" and lf_["stmt"]["rv"]["op"] == "PtrMetadata" or (lf_["kind"] == "call" and re.search(r"::len$", lf_["call"].decl))
+                                                              for lf_ in b.origins(other_, passthrough={})):
+                            exact.append(k_)
+            rep.check(not exact, "R3", "as|%s|any-length" % name, "%s accepts a list of any length" % name,
+                      "%s tests the number of items for equality with %s: an entry with more items no longer yields its first one" % (name, exact), b.span)
             rep.check(okf and conv_only, "R3", "as|%s|first-only" % name, "%s returns the first stored element and nothing else" % name,
                       "%s returns %s: not (only) the first element of the stored list" % (name, [a_[:160] for a_ in alts]), b.span)
     for suffix, asfn in GETTER_AS.items():
